@@ -23,6 +23,8 @@ def ipfix_inserts():
             s(4, []), s(17, [0, 0]), s(255, [0, 9, 0, 8, 1, 1, 1, 1, 2]), s(100, list(range(1, 34))),
             s(300, [10, 0, 0, 1, 9, 9, 9, 9]), s(300, [10, 0, 0, 1, 9, 9, 9, 9, 10, 0, 0, 2, 8, 8, 8, 8]),
             s(301, [1, 2, 3, 4, 5, 6, 7, 8]), s(302, [1, 2, 3, 4, 5, 6, 7, 8, 9, 10, 11, 12]),
+            # many undecodable sets in a row (each raises its own non-fatal error)
+            s(999, [7]) * 12, s(300, [10, 0, 0, 1, 9, 9, 9, 9]) * 9 + s(999, []) * 3 + s(5, [1]) * 2,
             s(999, NESTED), s(300, NESTED)]
 
 # templates that make a data set undecodable: 300 uses an element missing from the model; 301 and 302 describe records
@@ -97,6 +99,7 @@ def v9_inserts():
             s(4, []), s(2, [7, 7, 7, 7, 7, 7, 7, 7]), s(3, [0, 0]), s(255, [0, 9, 0, 8, 1, 1, 1, 1, 2]), s(100, list(range(1, 34))),
             s(300, [10, 0, 0, 1, 9, 9, 9, 9]), s(300, [10, 0, 0, 1, 9, 9, 9, 9, 10, 0, 0, 2, 8, 8, 8, 8]),
             s(301, [1, 2, 3, 4, 5, 6, 7, 8]), s(302, [1, 2, 3, 4, 5, 6, 7, 8, 9, 10, 11, 12]),
+            s(999, [7]) * 12, s(300, [10, 0, 0, 1, 9, 9, 9, 9]) * 9 + s(999, []) * 3 + s(5, [1]) * 2,
             s(999, NESTED), s(300, NESTED)]
 
 TBAD_MSG_V9 = [0, 9, 0, 3] + [0] * 16 + [0, 0, 0, 40, 1, 44, 0, 2, 0, 8, 0, 4, 39, 15, 0, 4,
